@@ -115,6 +115,13 @@ def model_case(ctx, rng):
         M.set_parameter("k1", 1.1)
         M.create_reaction(["B"], ["A"], "massaction", {"k": 0.3})
         steps.append("edited")
+        if rng.chance(1, 2):
+            # ... a reaction with a delayed part of its own, and the model put to use again (so it is initialised, with
+            # everything rebuilt, when the copy is taken)
+            M.create_reaction(["A"], [], "massaction", {"k": 0.7}, delay_type="fixed", delay_reactants=[], delay_products=["B"],
+                              delay_param_dict={"delay": 0.4})
+            py_simulate_model(np.linspace(0, 1, 5), Model=M, stochastic=True)
+            steps.append("delayed reaction added, simulated again")
     seed = rng.randint(1, 10**6)
     how = rng.choice(["pickle", "deepcopy", "pickle-of-pickle", "deepcopy-of-pickle", "deepcopy-of-deepcopy"])
     if how == "pickle":
